@@ -78,6 +78,8 @@ impl ToiAllocatorInternal {
         self.toi_reserved.insert(ret);
 
         loop {
+            #[cfg(feature = "verif")]
+            crate::verif::step("ToiAllocatorInternal::allocate");
             self.toi = Self::to_max_length(self.toi + 1, self.toi_max_length);
             if self.toi == lct::TOI_FDT {
                 self.toi = 1;
